@@ -828,4 +828,9 @@ def run(repo, tier):
     check_printer_base(r, repo)
     check_printer_state_not_rebound(r, repo, "R5.8")
     check_make_ref(r, repo)
+    # R5.12: a declared type narrower than the run-time type makes the C++ target round and the NumPy debug assertions fire:
+    # static type == NumPy promotion of the operands is part of "the target computes the traced graph" (shared with C08)
+    from rules import C08
+    sub = C08.run(repo, tier)
+    r.absorb(sub, {"R8.1": "R5.12", "R8.2": "R5.12"}, "the static type the printers declare for every kind and operand dtype tuple equals the type the target computes (shared clause with C08: R8.1, R8.2)", floor=100)
     return r
